@@ -6,6 +6,11 @@ spreading pressure is the exact fold of `PointIsotherm.spreading_pressure_at` (`
 `dropOrigin`).  Whatever an isotherm object has cached from earlier queries (an interpolator of another kind, branch
 or fill value) cannot enter.  Polymorphic over an ordered field: run at ℚ by `Drv/Iast.lean` (`pcert`), instantiated
 with real logarithms in `Props/C13/Point.lean`.
+
+Branches: the rows of the requested branch are selected from the stored rows by their marks (`branchRows`, 0 = adsorption,
+1 = desorption, stored order) and brought into increasing pressure order (`orient`: desorption points are stored in order of
+decreasing pressure; `spreading_pressure_at` reverses them, `interp1d` sorts them) before the certificate is computed
+(`pointCertStored`, `pointCertBranch`; `pcertb` of `Drv/Iast.lean`; theorems `Props/C11/Branch.lean`, `Props/C13/Branch.lean`).
 -/
 import PgVerif.Model.Iast
 import PgVerif.Model.SpreadPoint
@@ -23,5 +28,25 @@ def pointCert (ps ls logs : List α) (q lgLast : α) : Option (α × α) :=
   match interpLin d.1 d.2 q with
   | none => none
   | some lq => (spreadPoint d.1 d.2 logs q lq lgLast).map (fun s => (lq, s))
+
+/-- rows of one branch in stored order: `data_raw.loc[data_raw['branch'] == b]` -/
+def branchRows {β : Type} (xs : List β) (marks : List Nat) (b : Nat) : List β :=
+  ((xs.zip marks).filter (fun r => r.2 == b)).map (·.1)
+
+/-- the orientation step of `spreading_pressure_at` (`if len(pressures) > 1 and pressures[0] > pressures[-1]`): rows stored in order
+of decreasing pressure are reversed, both columns together -/
+def orient (ps ls : List α) : List α × List α :=
+  match ps.head?, ps.getLast? with
+  | some a, some b => if b < a then (ps.reverse, ls.reverse) else (ps, ls)
+  | _, _ => (ps, ls)
+
+/-- the certificate on the rows of one branch AS STORED (either order); `logs` / `lgLast` belong to the oriented, guarded rows -/
+def pointCertStored (ps ls logs : List α) (q lgLast : α) : Option (α × α) :=
+  let d := orient ps ls
+  pointCert d.1 d.2 logs q lgLast
+
+/-- the certificate from the stored rows of the whole isotherm, their branch marks and the requested branch -/
+def pointCertBranch (ps ls : List α) (marks : List Nat) (b : Nat) (logs : List α) (q lgLast : α) : Option (α × α) :=
+  pointCertStored (branchRows ps marks b) (branchRows ls marks b) logs q lgLast
 
 end PgVerif.Model.Iast
